@@ -433,6 +433,34 @@ func ruleCancelPump(c *Ctx, m *multiModel, rule string) {
 			}
 		}
 		c.Floor(rule, "blocking selects in "+key, nSel, 1)
+		// the reader goroutine stops only when the socket was closed (errors.Is(err, net.ErrClosed)) or on its cancel arm: a
+		// transient accept/read error must not end it while handles are open — nothing would read the socket any more
+		cancelEdges := eng.EdgeSet{}
+		for _, b := range pump.Blocks {
+			for _, ins := range b.Instrs {
+				if v, ok := ins.(*ssa.Select); ok && v.Blocking {
+					for k, st := range v.States {
+						if st.Dir == types.RecvOnly && done[chanFieldOf(c, m, pump, st.Chan)] {
+							if e, ok := selectArmEdge(v, k); ok {
+								cancelEdges[e] = true
+							}
+						}
+					}
+				}
+			}
+		}
+		for _, b := range pump.Blocks {
+			iff, ok := b.Instrs[len(b.Instrs)-1].(*ssa.If)
+			if ok && isErrClosedTest(iff.Cond) {
+				cancelEdges[eng.Edge{From: b, To: b.Succs[0]}] = true
+			}
+		}
+		for i, r := range eng.Returns(pump) {
+			if r.Block().Comment == "recover" {
+				continue
+			}
+			c.CheckAt(rule, fmt.Sprintf("%s:return#%d:only-when-closed-or-cancelled", key, i), r, len(cancelEdges) > 0 && eng.Cut(pump, r.Block(), cancelEdges), "the reader goroutine can stop on a path that is neither the socket-closed test nor its cancel arm (e.g. on any accept/read error): the socket stays open with nobody reading it, and every handle blocks forever")
+		}
 	}
 }
 
@@ -628,6 +656,23 @@ func ruleClosedGuard(c *Ctx, m *multiModel) {
 							}
 						}
 						c.CheckAt("DELIVER", key+":received-connection-is-handed-to-the-caller", s, okDel, "after taking a connection from the shared channel the handle "+why+": a connection that was already handed to this (possibly just released) handle is lost — no other handle can receive it any more")
+					}
+				}
+				// AWAIT: a request that the reader goroutine has taken is answered (PROMPTREPLY): from the moment the request was sent
+				// the handle takes the answer unconditionally — a select that also watches the close channel would abandon a
+				// datagram that has already been consumed from the socket and is on its way to this handle
+				if s.States[sharedK].Dir == types.SendOnly {
+					if e, okE := selectArmEdge(s, sharedK); okE {
+						isBareRecv := func(ins ssa.Instruction) bool {
+							u, ok := ins.(*ssa.UnOp)
+							return ok && u.Op == token.ARROW
+						}
+						isSel := func(ins ssa.Instruction) bool {
+							v, ok := ins.(*ssa.Select)
+							return ok && ins != ssa.Instruction(s) && len(v.States) > 0
+						}
+						okA, bad := eng.MustPassBefore(edgePoint(e), isBareRecv, isSel)
+						c.CheckAt("DELIVER", key+":taken-request-is-awaited-unconditionally", s, okA, fmt.Sprintf("after its read request was taken the handle does not simply wait for the answer (%s): if it gives up, the datagram the reader has already taken from the socket for it is lost", p.IPos(bad)))
 					}
 				}
 				c.CheckAt("CLOSEDGUARD", key+":closed-state-excluded", s, idiom1 || idiom2,
